@@ -622,10 +622,11 @@ func init() {
 	register(&Rule{
 		ID: "DISP-1",
 		Doc: "the algorithm that runs is the one the option names: in every Process method of the five phase packages, which dispatch target is called - a function of the package taking the graph that is called under a comparison of the receiver with an algorithm constant - depends on nothing but such comparisons; " +
-			"any other condition on the way to a target must be an early-exit guard (its other branch reaches no target). A size-gated fallback (`if len(g.Nodes) > 512 { greedy } else { depth-first }`) silently replaces the documented algorithm and its guarantees",
-		Floor: 4,
-		Ctl:   []string{"internal__phase1__disp1.go.txt"},
-		Run:   runDisp1,
+			"any other condition on the way to a target must be an early-exit guard (its other branch reaches no target), and in the layering, positioning and routing phases such a guard may test nothing about the graph but nil-ness and element counts (a fast path chosen by the shape of the graph skips the selected algorithm for exactly the inputs whose guarantees it was selected for). A size-gated fallback (`if len(g.Nodes) > 512 { greedy } else { depth-first }`) silently replaces the documented algorithm and its guarantees",
+		Floor:  4,
+		Ctl:    []string{"internal__phase1__disp1.go.txt", "internal__phase4__disp1.go.txt"},
+		MinCtl: 2,
+		Run:    runDisp1,
 	})
 }
 
@@ -733,6 +734,42 @@ func runDisp1(m *Model, r *RuleResult) {
 					bad = append(bad, d.If.Cond.String()+" at "+m.Pos(d.If.Cond.Pos()))
 				}
 			}
+			// a condition that lets the call leave before the dispatch (its other branch reaches no target) may look at the algorithm
+			// constant, at nil-ness and at element counts only: a fast path chosen by the shape of the graph skips the selected
+			// algorithm for exactly the inputs it was selected for (phase 1's acyclicity exit is ACYC-1/ORD-5's business, phase 3's
+			// ordering is trivially right on one-node layers)
+			if ph := shortPkg(pkgPathOf(f)); ph == "internal/phase2" || ph == "internal/phase4" || ph == "internal/phase5" {
+				var shape []string
+				for _, d := range s.dep {
+					if isAlgTest(d.If.Cond) || reachesTarget(d.If.Block().Succs[1-d.Branch]) {
+						continue
+					}
+					if !isCountOrNilTest(d.If.Cond, 0) && dependsOnGraphParam(d.If.Cond, map[ssa.Value]bool{}, 0) {
+						shape = append(shape, d.If.Cond.String()+" at "+m.Pos(d.If.Cond.Pos()))
+					}
+				}
+				bkey := "bypass:" + funcKey(f)
+				had := false
+				for _, o := range r.Obligations {
+					if o.Key == bkey {
+						had = true
+					}
+				}
+				hadBad := false
+				for _, o := range r.Obligations {
+					if o.Key == bkey && o.Verdict == "violation" {
+						hadBad = true
+					}
+				}
+				if len(shape) > 0 && hadBad {
+					// reported once per Process method
+				} else if len(shape) > 0 {
+					r.add(Obligation{Key: bkey, Pos: m.Pos(s.in.Pos()), Desc: "the selected algorithm is skipped only for trivial graphs (element counts, nil) or by the algorithm constant", Verdict: "violation",
+						Detail: "whether " + s.fn.Name() + " runs at all depends on " + strings.Join(uniq(shape), "; ") + ": a fast path chosen by the shape of the graph replaces the selected algorithm and its guarantees for those inputs", Control: ctl})
+				} else if !had {
+					r.add(Obligation{Key: bkey, Pos: m.Pos(f.Pos()), Desc: "exits before the dispatch depend on the algorithm constant, nil tests and element counts only", Verdict: "holds", Control: ctl})
+				}
+			}
 			dup := false
 			for _, o := range r.Obligations {
 				if o.Key == key {
@@ -750,6 +787,71 @@ func runDisp1(m *Model, r *RuleResult) {
 			}
 		}
 	}
+}
+
+// isCountOrNilTest: len(x) <cmp> constant, x <cmp> nil, and negations of those
+func isCountOrNilTest(c ssa.Value, depth int) bool {
+	if depth > 3 {
+		return false
+	}
+	switch x := c.(type) {
+	case *ssa.UnOp:
+		if x.Op == token.NOT {
+			return isCountOrNilTest(x.X, depth+1)
+		}
+	case *ssa.BinOp:
+		switch x.Op {
+		case token.EQL, token.NEQ, token.LSS, token.LEQ, token.GTR, token.GEQ:
+		default:
+			return false
+		}
+		isLen := func(v ssa.Value) bool {
+			call, ok := v.(*ssa.Call)
+			if !ok {
+				return false
+			}
+			b, ok := call.Call.Value.(*ssa.Builtin)
+			return ok && b.Name() == "len"
+		}
+		cx, okx := x.X.(*ssa.Const)
+		cy, oky := x.Y.(*ssa.Const)
+		if oky && (isLen(x.X) || cy.IsNil()) {
+			return true
+		}
+		if okx && (isLen(x.Y) || cx.IsNil()) {
+			return true
+		}
+	}
+	return false
+}
+
+// dependsOnGraphParam: the value is computed from a *DGraph parameter of its function
+func dependsOnGraphParam(v ssa.Value, seen map[ssa.Value]bool, depth int) bool {
+	if v == nil || seen[v] || depth > 10 {
+		return false
+	}
+	seen[v] = true
+	if p, ok := v.(*ssa.Parameter); ok {
+		return namedKey(p.Type()) == igDG
+	}
+	in, ok := v.(ssa.Instruction)
+	if !ok {
+		return false
+	}
+	if al, ok := v.(*ssa.Alloc); ok && al.Referrers() != nil {
+		// a captured parameter lives in a cell: what is stored there
+		for _, ref := range *al.Referrers() {
+			if st, ok := ref.(*ssa.Store); ok && st.Addr == v && dependsOnGraphParam(st.Val, seen, depth+1) {
+				return true
+			}
+		}
+	}
+	for _, op := range in.Operands(nil) {
+		if op != nil && *op != nil && dependsOnGraphParam(*op, seen, depth+1) {
+			return true
+		}
+	}
+	return false
 }
 
 // ---------- ORD-6 ----------
@@ -835,6 +937,112 @@ func runOrd6(m *Model, r *RuleResult) {
 				r.add(Obligation{Key: key, Pos: m.Pos(a.in.Pos()), Desc: "the options record must not be read before the options are applied", Verdict: "violation",
 					Detail: "read at " + strings.Join(uniq(bad), ", ") + ", before the loop that applies the caller's options: the value is the default, not what the caller asked for", Control: ctl})
 			}
+		}
+	}
+}
+
+// ---------- POP-1 ----------
+
+func init() {
+	register(&Rule{
+		ID: "POP-1",
+		Doc: "every input row becomes an edge: in each Populate implementation of package graph the edge constructor is called inside the loop over the rows, " +
+			"its call depends - within one iteration - on nothing but guards whose other branch cannot continue (panics on malformed rows), and the loop is never left early; " +
+			"a source that skips a row it has seen before (or folds it into a weight) returns fewer edges than the caller passed in",
+		Floor: 1,
+		Ctl:   []string{"graph__pop1.go.txt"},
+		Run:   runPop1,
+	})
+}
+
+func runPop1(m *Model, r *RuleResult) {
+	newEdge := m.anchorNewEdge()
+	if newEdge == nil {
+		r.undecided("edge-constructor", "-", "the edge constructor of internal/graph", "not found")
+		return
+	}
+	creates := func(c *ssa.Function) bool {
+		if c == nil {
+			return false
+		}
+		if c == newEdge {
+			return true
+		}
+		if !inModule(c) || c == nil {
+			return false
+		}
+		return len(staticCalls(c, func(x *ssa.Function) bool { return x == newEdge })) > 0
+	}
+	for _, f := range m.Src {
+		if f.Name() != "Populate" || f.Signature.Recv() == nil || f.Parent() != nil || len(f.Params) != 2 || namedKey(f.Params[1].Type()) != igDG {
+			continue
+		}
+		if shortPkg(pkgPathOf(f)) != "graph" {
+			continue
+		}
+		ctl := m.FuncIsPosctl(f)
+		if ctl && !strings.Contains(f.String(), "Pop1") {
+			continue
+		}
+		key := "one-edge-per-row:" + funcKey(f)
+		pos := m.Pos(f.Pos())
+		loops := naturalLoops(f)
+		canReturn := func(b *ssa.BasicBlock) bool {
+			hasRet := func(x *ssa.BasicBlock) bool {
+				_, ok := x.Instrs[len(x.Instrs)-1].(*ssa.Return)
+				return ok
+			}
+			if hasRet(b) {
+				return true
+			}
+			for x := range blocksReachableFrom(b) {
+				if hasRet(x) {
+					return true
+				}
+			}
+			return false
+		}
+		var sites []ssa.CallInstruction
+		eachInstr(f, func(in ssa.Instruction) {
+			if ci, ok := in.(ssa.CallInstruction); ok && creates(ci.Common().StaticCallee()) {
+				sites = append(sites, ci)
+			}
+		})
+		if len(sites) == 0 {
+			r.add(Obligation{Key: key, Pos: pos, Desc: "a Populate implementation creates its edges with the edge constructor", Verdict: "undecided", Detail: "no call of " + newEdge.Name() + " (directly or through a helper) found", Control: ctl})
+			continue
+		}
+		var bad []string
+		for _, s := range sites {
+			ls := loopsContaining(loops, s.Block())
+			if len(ls) == 0 {
+				bad = append(bad, "the edge created at "+m.Pos(s.Pos())+" is not created in a loop over the rows")
+				continue
+			}
+			for _, d := range iterationControlDeps(s.Block(), loops) {
+				other := d.If.Block().Succs[1-d.Branch]
+				if canReturn(other) {
+					bad = append(bad, "whether a row becomes an edge depends on "+d.If.Cond.String()+" at "+m.Pos(d.If.Cond.Pos()))
+				}
+			}
+			for _, l := range ls {
+				for b := range l.Body {
+					if b == l.Head {
+						continue
+					}
+					for _, sc := range b.Succs {
+						if !l.Body[sc] && canReturn(sc) {
+							bad = append(bad, "the loop over the rows can be left early at "+m.Pos(b.Instrs[len(b.Instrs)-1].Pos()))
+						}
+					}
+				}
+			}
+		}
+		if len(bad) == 0 {
+			r.add(Obligation{Key: key, Pos: pos, Desc: fmt.Sprintf("%d edge creation site(s): executed in every iteration of a never-left-early loop, guarded only by panics", len(sites)), Verdict: "holds", Control: ctl})
+		} else {
+			r.add(Obligation{Key: key, Pos: pos, Desc: "every input row becomes exactly one edge", Verdict: "violation",
+				Detail: strings.Join(uniq(bad), "; ") + ": rows for which the constructor is not reached are missing from the output (repeated edges, for instance)", Control: ctl})
 		}
 	}
 }
